@@ -76,7 +76,7 @@ def run(ctx):
     # big jobs first so that the pool is balanced
     order = sorted(range(len(jobs)), key=lambda k: -jobs[k]["inp"]["n"])
     t = time.time()
-    results = cases.run_all([jobs[k] for k in order], procs=4 if ctx.quick else 6)
+    results = cases.run_all([jobs[k] for k in order], procs=4 if ctx.quick else 6, workdir=ctx.workdir)
     ctx.log("executed %d cases (%d encoder runs) in %.1fs" % (len(results), sum(r["encs"] for r in results), time.time() - t))
     l1, l2 = [], []
     nb = 0
